@@ -20,6 +20,9 @@ type memoryQueue struct {
 	queue PriorityQueue
 	key   string
 	mutex sync.RWMutex
+	// arrival time of every item that was not removed yet: an item that is put back after
+	// its turn was blocked keeps its place among the items of its priority
+	arrivals map[string]int64
 }
 
 func NewMemoryQueue(key string, _ time.Duration) publictypes.SharedQueueI {
@@ -34,10 +37,18 @@ func (q *memoryQueue) Enqueue(item string, priority float64) error {
 	q.mutex.Lock()
 	defer q.mutex.Unlock()
 
+	timestamp, known := q.arrivals[item]
+	if !known {
+		timestamp = time.Now().UnixNano()
+		if q.arrivals == nil {
+			q.arrivals = make(map[string]int64)
+		}
+		q.arrivals[item] = timestamp
+	}
 	heap.Push(&q.queue, &Item{
 		value:     item,
 		score:     calculateScore(priority),
-		timestamp: time.Now().UnixNano(),
+		timestamp: timestamp,
 	})
 	return nil
 }
@@ -64,6 +75,7 @@ func (q *memoryQueue) Remove(item string) {
 	q.mutex.Lock()
 	defer q.mutex.Unlock()
 
+	delete(q.arrivals, item)
 	for i, v := range q.queue {
 		if v.value == item {
 			heap.Remove(&q.queue, i)
